@@ -1,3 +1,4 @@
+import Splipy.Lemmas.C10Cummax
 import Splipy.Lemmas.EvalRow
 import Splipy.Model.BasisOps
 import Mathlib.Tactic.Linarith
@@ -342,7 +343,11 @@ theorem mk?_of_valid_periodic (tol : K) (htol : 0 ≤ tol) :
       ring
     rw [this, abs_zero] at h
     exact absurd h (not_lt.mpr htol)
-  rw [if_neg hbad, if_neg]
+  have hsort : ∀ i, i + 1 < b.knots.size → b.knots.getD i 0 ≤ b.knots.getD (i + 1) 0 := by
+    intro i hi
+    rw [getD_eq_kn hv hper _ (by omega), getD_eq_kn hv hper _ (by omega)]
+    exact hv.kn_mono (show i ≤ i + 1 by omega)
+  rw [if_neg hbad, if_neg, Basis.cummax_of_sorted _ hsort]
   intro h
   rw [List.any_eq_true] at h
   obtain ⟨i, hi, h⟩ := h
